@@ -143,7 +143,7 @@ def gen_block(rng, depth, maxdepth, plain=False, first_in_item=False):
     if not tight and len(items) == 1 and len(items[0]) == 1:
         # looseness is observable only with two items or a second block in an item
         items.append([gen_block(rng, depth + 1, maxdepth, plain, first_in_item=True)])
-    return ("list", ordered, rng.choice([1, 1, 2, 7, 10, 99]) if ordered else None, tight, items)
+    return ("list", ordered, rng.choice([1, 1, 2, 7, 10, 99, 0, 0, 123456789]) if ordered else None, tight, items)
 
 
 def push_block(rng, out, b, plain=False):
@@ -322,7 +322,7 @@ def e_block(b, depth, tight_parent=False):
             t["attrs"] = {"info": b[1]}
         return t
     if k == "icode":
-        return {"type": "block_code", "raw": "\n".join(b[1])}
+        return {"type": "block_code", "raw": "".join(l + "\n" for l in b[1])}
     if k == "hr":
         return {"type": "thematic_break"}
     if k == "html":
@@ -353,8 +353,10 @@ def normalise(tokens):
         if t["type"] == "blank_line":
             continue
         n = {k: v for k, v in t.items() if k not in DROP_KEYS and k != "children"}
-        if n.get("type") == "block_code" and "raw" in n:
-            n["raw"] = n["raw"].rstrip("\n")
+        if t.get("type") == "block_code" and t.get("style") == "indent" and n.get("raw") and not n["raw"].endswith("\n"):
+            # the parser keeps an indented code block without its final line end and a fenced one with it (one block
+            # re-styled by the Markdown renderer): canonical form = every line terminated.  Nothing else is trimmed.
+            n["raw"] += "\n"
         if n.get("type") == "block_html" and "raw" in n:
             n["raw"] = n["raw"].rstrip("\n")
         if "children" in t:
